@@ -51,3 +51,15 @@ func VerifComputeStakeRewardsForEpoch(context vm_context.AccountVmContext, epoch
 func VerifComputeSentinelRewardsForEpoch(context vm_context.AccountVmContext, epoch uint64) error {
 	return computeSentinelRewardsForEpoch(context, epoch)
 }
+
+func VerifAddReward(context vm_context.AccountVmContext, epoch uint64, reward definition.RewardDeposit) {
+	addReward(context, epoch, reward)
+}
+func VerifUpdateLiquidityRewards(context vm_context.AccountVmContext) (int, error) {
+	blocks, err := updateLiquidityRewards(context)
+	return len(blocks), err
+}
+func VerifUpdateLiquidityStakeRewards(context vm_context.AccountVmContext) (int, error) {
+	blocks, err := updateLiquidityStakeRewards(context)
+	return len(blocks), err
+}
